@@ -508,7 +508,7 @@ func fail(t interface{ Fatalf(string, ...interface{}) }, c kase, sig string, err
 	t.Fatalf("%s", evid.Violation(id, sig, fmt.Sprintf("%v\ncase=%s", err, b)))
 }
 
-const rule = "rapid: history of 2..24 ops over 3 registered peers on a real traffic.Service (real cheque store, signer, address book; in-memory leveldb state store): credit traffic owed (PutRetrieveTraffic; 1, 1..100, 1..1e6, optionally in units of 1e18), Pay with threshold 1 | fixed | exactly outstanding | outstanding+1 and delivery succeeding or failing, refresh from chain (Init), restart (new service on the same store + Init), peer cashes 1/4..4/4 of its uncashed cheque on the chain stub, deposit, cash-out receipt (mined ok | mined failed | error); initial chain balance 0 | 50 | 1e9 | 1e30; half of the histories start with a credit+delivered cheque for peers 0 and 1; pay/chaincash may target the peer with most unpaid traffic / uncashed cheque; after every op AvailableBalance() == chain balance at last refresh + cashed at last refresh - total owed, persisted cashed records unchanged by Pay, LastSentCheque == last delivered; every emitted cheque has cumulative > last delivered and <= owed; non-trivial = a cheque is issued after a refresh/restart, or after a failed delivery to the same peer; distinct by hash of the case"
+const rule = "rapid: history of 2..24 ops over 3 registered peers on a real traffic.Service (real cheque store, signer, address book; in-memory leveldb state store): credit traffic owed (PutRetrieveTraffic; 1, 1..100, 1..1e6, optionally in units of 1e18), Pay with threshold 1 | fixed | exactly outstanding | outstanding+1 and delivery succeeding or failing, refresh from chain (Init), restart (new service on the same store + Init), peer cashes 1/4..4/4 of its uncashed cheque on the chain stub, deposit, cash-out receipt (mined ok | mined failed | error); initial chain balance 0 | 50 | 1e9 | 1e30; half of the histories start with a credit+delivered cheque for peers 0 and 1; pay/chaincash may target the peer with most unpaid traffic / uncashed cheque; after every op AvailableBalance() == chain balance at last refresh + cashed at last refresh - total owed, persisted cashed records unchanged by Pay, LastSentCheque == last delivered; every emitted cheque has cumulative > last delivered and <= owed; non-trivial = a cheque is issued after a refresh/restart, or after a failed delivery to the same peer; distinct by hash of the case. Concurrent variant: 2-4 goroutines with 1-4 Pay/credit calls each over the 3 peers while the delivery of a cheque to one chosen peer is parked by the harness (the service holds that peer's lock there) until the others have started; at quiescence per peer the delivered cumulative payouts strictly increase and stay <= the credits, the recorded owed traffic == credits, AvailableBalance() == chain balance - credits; non-trivial there = a delivery was actually parked"
 
 // witness of C31/issue-changes-cashed-record: owe peer 0 100, refresh, pay.
 var witnessCase = kase{Balance: 2, Ops: []op{{Kind: "credit", Peer: 0, Amt: 100}, {Kind: "refresh"}, {Kind: "pay", Peer: 0}}}
